@@ -33,8 +33,8 @@ impl Method for HeikinAshi {
 
 		Candle {
 			open,
-			high: value.high().max(open),
-			low: value.low().min(open),
+			high: value.high().max(open).max(close),
+			low: value.low().min(open).min(close),
 			close,
 			volume: value.volume(),
 		}
